@@ -4,8 +4,49 @@
 
 enum { K_MARK = 40 };   // a: reset sender station, rdst_bcast   — ops before it are h, after it are c
 
+// the continuation c delivered to a never-used instance; per-step digests of the transmit events
+static std::vector<uint64_t> fresh_digests(const Case &c) {
+    std::vector<uint64_t> d;
+    HCfg h = HCfg::from_case(c);
+    World w;
+    h.apply_global(w);
+    int F = w.add_if(h.ifcfg());
+    size_t mark = c.ops.size();
+    for (size_t i = 0; i < c.ops.size(); i++) if (c.ops[i].kind == K_MARK) { mark = i; break; }
+    for (size_t i = 0; i < mark; i++) {   // machine-wide changes made during h are part of the configuration both instances see
+        if (c.ops[i].kind == K_ADVANCE) vp_set_now_ms(vp_now_ms() + (uint64_t)c.ops[i].arg(0));
+        if (c.ops[i].kind == K_SETICON) w.set_icon(c.ops[i].blob);
+    }
+    Shadow sc;
+    for (size_t i = mark + 1; i < c.ops.size(); i++) {
+        const Op &op = c.ops[i];
+        if (op.kind == K_ADVANCE) { vp_set_now_ms(vp_now_ms() + (uint64_t)op.arg(0)); continue; }
+        if (op.kind == K_SETICON) { w.set_icon(op.blob); continue; }
+        if (op.kind == K_MARK) continue;
+        Built b = build_frame(h, op, sc);
+        if (!b.is_frame) continue;
+        if (b.frame.size() > h.mtu) b.frame.resize(h.mtu);
+        std::vector<Ev> ef = w.deliver(F, b.frame);
+        for (auto &e : ef) if (e.ifid == F) e.ifid = 0;
+        d.push_back(ev_digest(ef));
+        shadow_update_sem(sc, frame_sem(b.frame), b);
+    }
+    return d;
+}
+
 static Verdict run(const Case &c) {
     Verdict v;
+    // sampled (forked) evaluations: "a responder that has just been started" is taken literally - a fresh process, forked before
+    // this process has executed any code under test
+    std::vector<uint64_t> fresh_proc;
+    bool have_fresh = false;
+    if (in_isolated_child()) {
+        bool okc = true;
+        fresh_proc = digests_in_child([&] { return fresh_digests(c); }, &okc);
+        if (!okc) { v.fail("the continuation crashed a freshly started instance"); return v; }
+        have_fresh = true;
+    }
+    std::vector<uint64_t> post_reset;
     HCfg h = HCfg::from_case(c);
     World w;
     h.apply_global(w);
@@ -52,6 +93,7 @@ static Verdict run(const Case &c) {
         for (auto &e : ep) if (e.ifid == P) e.ifid = 0;
         for (auto &e : ef) if (e.ifid == F) e.ifid = 0;
         c_tx += sends_only(ef).size();
+        post_reset.push_back(ev_digest(ep));
         if (!(ep == ef)) {
             std::string a = ep.empty() ? "nothing" : ep[0].str().substr(0, 140), bb = ef.empty() ? "nothing" : ef[0].str().substr(0, 140);
             size_t k = 0;
@@ -61,6 +103,11 @@ static Verdict run(const Case &c) {
             v.fail(fmt("continuation step %zu (op kind %d): post-Reset instance and fresh instance differ at event %zu: post-Reset %s / fresh %s", i - mark - 1, op.kind, k, a.c_str(), bb.c_str()));
         }
         shadow_update_sem(sc, frame_sem(b.frame), b);
+    }
+    if (v.ok && have_fresh) {
+        for (size_t k = 0; k < post_reset.size() && k < fresh_proc.size(); k++)
+            if (post_reset[k] != fresh_proc[k]) { v.fail(fmt("continuation step %zu: the post-Reset instance differs from an instance in a freshly started process (process-wide state survives the Reset)", k)); break; }
+        v.cls("fresh-instance-in-fresh-process");
     }
     v.nontrivial = h_tx >= 2 && (h_obs || h_icon) && c_tx >= 2;
     if (h_obs) v.cls("h-recorded-observation");
